@@ -60,6 +60,33 @@ class C03(PropBase):
                 if want:
                     rep.nontriv(f)
         rep.sample({"frame": frames[7], "address": exp[7]})
+        # a frame with a non-zero address puts its aircraft into the table whatever it carries: every 13-bit altitude / identity
+        # code (also the ones that decode to nothing: below -1000 ft .. illegal Gillham patterns), every flight status, as the first
+        # frame ever heard of that aircraft, on both paths
+        for (u, r) in ((False, False), (True, True)):
+            first, owners = [], []
+            for code in range(0, 8192, 1 if tier == "thorough" else 3):
+                a = 0x500000 + code
+                first.append(rng.choice([F.df4, F.df5])(rng.randrange(8), rng.randrange(32), rng.randrange(64), code, a)); owners.append(a)
+                if code % 4 == 0:
+                    a2 = 0x510000 + code
+                    first.append(rng.choice([F.df20, F.df21])(rng.randrange(8), rng.randrange(32), rng.randrange(64), code, rng.randrange(1 << 56), a2)); owners.append(a2)
+            for k in range(300):
+                a3 = 0x520000 + k
+                first.append(gen.rand_frame(rng, NINE[k % len(NINE)], a3)); owners.append(a3)
+            ops = ["reset", gen.cfg_op(use_update=u, relaxed=r, delete_after=600)] + gen.seg(first) + ["dump"]
+            impl, _, model = run.execute(ops, model=driver_ok)
+            rep.evaluations += len(first); rep.traces += 1
+            self.corr(rep, impl, model, {"creating frames": len(first), "use_update": u})
+            have = set(gen.parse_dump(impl))
+            for f, a in zip(first, owners):
+                if a not in have:
+                    self.fail(rep, f"frame {f} is the first frame of aircraft {a:06X}: the table has no row for it afterwards",
+                              {"ops": ["reset", gen.cfg_op(use_update=u, relaxed=r)] + gen.seg([f]) + ["dump"], "frame": f, "expected_address": a})
+                    return
+            if have - set(owners):
+                self.fail(rep, f"rows of aircraft nobody sent a frame for: {sorted('%06X' % x for x in have - set(owners))[:5]}", {"ops": ops[:2000]})
+                return
         # isolation
         nh = 40 if tier == "quick" else 1500
         for h in range(nh):
